@@ -675,6 +675,9 @@ func checkC10(w *World) {
 	// R10.7 end event, root
 	entry := w.member("store", "CreateInMemory")
 	rootOK, selfParent, pos0 := false, false, false
+	posStores := 0
+	var rootAlloc *ssa.Alloc
+	defer func() { _ = rootAlloc }()
 	allInstrs(entry, func(in ssa.Instruction) {
 		st, ok := in.(*ssa.Store)
 		if !ok {
@@ -693,11 +696,27 @@ func checkC10(w *World) {
 			selfParent = true
 		}
 		if sf.roleOf(fa.Field) == "pos" {
+			posStores++
 			if k, ok := constInt(st.Val); ok && k == 0 {
 				pos0 = true
 			}
 		}
+		if sf.roleOf(fa.Field) == "parent" && st.Val == ssa.Value(al) {
+			rootAlloc = al
+		}
 	})
+	// a root built by a composite literal that does not mention the position has the zero value, which is 0
+	if rootAlloc != nil && posStores == 0 && rootAlloc.Heap {
+		fresh := true
+		for _, st := range storesInto(rootAlloc) {
+			if st.Addr == ssa.Value(rootAlloc) {
+				fresh = false // initialised from another value (a helper's result): its position is whatever that has
+			}
+		}
+		if fresh {
+			pos0 = true
+		}
+	}
 	w.check(P, "R10.7", "root: position 0 and its own parent", entry.Pos(), rootOK && selfParent && pos0, fmt.Sprintf("root.parent = root: %v; root.pos = 0: %v", selfParent, pos0))
 	nEnd := 0
 	for _, fn := range pullers {
